@@ -1159,6 +1159,9 @@ class Interp:
                 return ("native", collections.Counter)
             if mod is not None and n.id in mod.imports and mod.imports[n.id] == ("collections", "defaultdict"):
                 return ("builtin", "defaultdict")
+            if mod is not None and n.id in mod.imports and mod.imports[n.id][0] == "collections" and mod.imports[n.id][1] in ("ChainMap", "OrderedDict", "deque"):
+                import collections
+                return ("native", getattr(collections, mod.imports[n.id][1]))
             if mod is not None and n.id in mod.imports and mod.imports[n.id] == ("dataclasses", "astuple"):
                 return ("builtin", "astuple")
             if mod is not None and n.id in mod.imports and mod.imports[n.id][0] in ("itertools", "functools") \
